@@ -115,6 +115,15 @@ Theorem C09_running_keyed_by_own_region :
     get_op (run_state ctl_step (init maxw) es) id = Some o -> o_rid o = rid.
 Proof. exact running_keyed_pf. Qed.
 
+(* an operator that left the running set in an event has a record under its region afterwards (every removal path
+   buries, records are never deleted); with C09_records_truthful the record names an ended operator of that region *)
+Theorem C09_left_running_has_record :
+  forall maxw es e rid id,
+    In (rid, id) (running (run_state ctl_step (init maxw) es)) ->
+    ~ In (rid, id) (running (fst (ctl_step (run_state ctl_step (init maxw) es) e))) ->
+    alist_get (records (fst (ctl_step (run_state ctl_step (init maxw) es) e))) rid <> None.
+Proof. exact left_running_has_record_pf. Qed.
+
 (* ---- remembered as such: in every reachable state every record (what GetOperatorStatus reports for a region without
         running operator) names an existing operator of that region, with exactly the end status that operator has ---- *)
 Theorem C09_records_truthful :
@@ -164,14 +173,6 @@ Proof.
 Qed.
 
 (* ---- not yet proved, visible and listed under "todo" in checks/C09.json ---- *)
-(* an operator that left the running set in an event has a record under its region afterwards (every removal path
-   buries; checked on the real controller by the monitor, not yet proved on the model) *)
-Definition C09_left_running_has_record_todo : Prop :=
-  forall maxw es e rid id,
-    In (rid, id) (running (run_state ctl_step (init maxw) es)) ->
-    ~ In (rid, id) (running (fst (ctl_step (run_state ctl_step (init maxw) es) e))) ->
-    alist_get (records (fst (ctl_step (run_state ctl_step (init maxw) es) e))) rid <> None.
-
 (* own steps, any number of stores, outside the refuted class *)
 Definition C09_own_steps_never_stale_general_todo : Prop :=
   forall r0 g ss, nodup_stores (peers r0) = true -> plan_ok g r0 ss = true -> readded_same_id ss = false ->
@@ -203,6 +204,7 @@ Print Assumptions C09_refutation_plan_is_the_builders.
 Print Assumptions C09_unapplied_step_counts_nothing_refuted.
 Print Assumptions C09_joint_state_admits_only_leave.
 Print Assumptions C09_left_running_is_ended.
+Print Assumptions C09_left_running_has_record.
 Print Assumptions C09_records_truthful.
 Print Assumptions C09_running_keyed_by_own_region.
 Print Assumptions C09_conf_ver_changed_bound.
